@@ -108,6 +108,8 @@ package phantoms
 //@   ensures @C01: result1 == nil ==> (clientLibVer < 1 ==> defined(usedV0)) && (clientLibVer == 1 ==> defined(usedV1)) && (clientLibVer >= 2 ==> defined(usedV2))
 // (result shape as registration ingest uses it: assumed clause - the legacy selection routines are not under contract;
 // address well-formedness per subnet is verified on the functions above under C14)
+// C07 "names a known ClientConf generation": a generation the station has no subnets for yields no phantom
+//@   ensures @C07: old(!(generation in p.Networks) || p.Networks[generation] == nil) ==> result1 != nil && result0 == nil
 //@   ensures @DET: result1 == nil ==> result0 != nil && result0.ip != nil
 //@   assigns nothing
 
